@@ -222,6 +222,8 @@ class Interp:
             it = self.eval(st.iter, env, f)
             if isinstance(it, dict):
                 it = list(it.keys())
+            if isinstance(it, Obj) and "__iter__" in it.attrs:
+                it = it.attrs["__iter__"]      # an opaque container with known abstract elements
             if not isinstance(it, (list, tuple)):
                 raise Unsupported("iteration over %r (%s)" % (it, norm(st.iter)))
             broke = False
